@@ -41,6 +41,7 @@ type Result struct {
 type ThreadEvent struct {
 	ID    int
 	Name  string
+	Spawn uint64 // step at which it was spawned
 	Start uint64 // step at which it first ran (0 = never)
 	End   uint64 // step at which it finished (0 = never)
 }
@@ -245,7 +246,7 @@ func (s *Sched) spawn(name string, f func(), client bool) *Thread {
 	t := &Thread{id: len(s.threads), name: name, wake: make(chan struct{}, 1), fn: f, client: client, kind: "start"}
 	s.threads = append(s.threads, t)
 	s.live = append(s.live, t)
-	s.events = append(s.events, ThreadEvent{ID: t.id, Name: name})
+	s.events = append(s.events, ThreadEvent{ID: t.id, Name: name, Spawn: s.stepCount})
 	s.res.Spawned = append(s.res.Spawned, name)
 	go func() {
 		<-t.wake
